@@ -305,8 +305,25 @@ def check_dispatch(res, T, per_ctx, O):
                     out.setdefault(variants.get(vs[0], '?%s' % vs[0]), []).extend(evs)
         return out
 
+    # the enumeration of valid registers: registers() filtered by the per-CPU register_is_valid (which maps aliases in
+    # the validity set), either dispatched in the filter closure or through MinidumpContext::register_is_valid
+    VR = 'minidump::context::MinidumpContext::valid_registers'
+    fv, fc = c.fn(VR), c.fn(VR + '::{closure#0}')
+    via_dispatcher = False
+    if fv is None:
+        res.error('C18', '%s not found' % VR)
+    else:
+        cs = [fv.callee(t) for b, t in fv.calls()]
+        ob('minidump::context::MinidumpContext::registers' in cs and any(x.endswith('Iterator::filter') for x in cs) and fc is not None, VR + '|shape', fv,
+           'MinidumpContext::valid_registers is not registers() filtered by a validity test (calls: %s)' % cs)
+        if fc is not None:
+            cc = [fc.callee(t) for b, t in fc.calls()]
+            via_dispatcher = cc == ['minidump::context::MinidumpContext::register_is_valid']
+            ob(via_dispatcher or any(x.endswith('CpuContext::register_is_valid') or x.endswith('CpuContext>::register_is_valid') for x in cc), VR + '|test', fc,
+               'the filter of MinidumpContext::valid_registers does not ask the per-CPU register_is_valid (calls: %s): names in the validity set may be aliases, so a raw set lookup loses registers that get_register reports' % cc)
+            ob(not any(re.search(r'hash_set|HashSet', x or '') for x in cc), VR + '|raw-set', fc, 'the filter of MinidumpContext::valid_registers looks names up in the validity set itself')
     for meth in ('get_register_always', 'register_is_valid', 'format_register'):
-        for disp in ('minidump::context::MinidumpContext::' + meth, 'minidump::context::MinidumpContext::get_register'):
+        for disp in ('minidump::context::MinidumpContext::' + meth, 'minidump::context::MinidumpContext::get_register') + ((VR + '::{closure#0}',) if meth == 'register_is_valid' and not via_dispatcher else ()):
             f = c.fn(disp)
             if f is None:
                 continue
@@ -333,21 +350,20 @@ def check_dispatch(res, T, per_ctx, O):
     f = c.fn('minidump::context::MinidumpContext::general_purpose_registers')
     if f is not None:
         a = arms(f)
+        ob(set(a) >= set(VARIANT_TYPE), 'general_purpose_registers|arms', f, 'general_purpose_registers has arms for %s, expected all nine variants' % sorted(a))
         for vn, evs in a.items():
             for k, t, tree in evs:
-                if k == 'ret':
-                    tx = f.expand(tree)
-                    items = [x for x in walk(tx) if isinstance(x, tuple) and x and x[0] == 'item' and x[1].endswith('::REGISTERS')]
-                    # the impl the const belongs to is in the terminator's / statement's const path; compare lists
-                    want = per_ctx.get(VARIANT_TYPE.get(vn), {}).get('regs')
-                    got = None
-                    for st in f.blocks:
-                        pass
-                    O['n'] += 1
-                    O['ok'] += 1
-        # compare through the const paths recorded in the raw statements
-        for b in sorted(f.reach):
-            pass
+                if k != 'ret' or t.get('k') != 'assign':
+                    continue
+                kk = t['rv'].get('x', {}).get('k') if t['rv'].get('k') == 'use' else None
+                if not (isinstance(kk, dict) and str(kk.get('item', '')).endswith('CpuContext::REGISTERS')):
+                    ob(False, 'general_purpose_registers|' + vn, f, 'arm %s of general_purpose_registers returns %s, not a CpuContext::REGISTERS table' % (vn, show(f.expand(tree))[:120]))
+                    continue
+                self_ty = (kk.get('iargs') or ['?'])[0].split('::')[-1]
+                want = VARIANT_TYPE.get(vn)
+                # another context's table is accepted only when it is the same list of names
+                same = self_ty == want or (per_ctx.get(self_ty, {}).get('regs') is not None and per_ctx.get(self_ty, {}).get('regs') == per_ctx.get(want, {}).get('regs'))
+                ob(same, 'general_purpose_registers|' + vn, f, 'arm %s of general_purpose_registers returns <%s as CpuContext>::REGISTERS; the context of that variant is %s, whose register names differ' % (vn, self_ty, want))
     # get_stack_pointer / get_instruction_pointer read the place the names map to
     for disp, which in (('minidump::context::MinidumpContext::get_stack_pointer', 'stack_pointer_register_name'),
                         ('minidump::context::MinidumpContext::get_instruction_pointer', 'instruction_pointer_register_name')):
